@@ -40,6 +40,8 @@ def cell_eq(exp, got, fmt, ftype):
     if ftype == 'number' and exp is not None and got is not None:
         if fmt == 'json':
             try:
+                if float(exp) != float(exp):
+                    return float(got) != float(got)
                 return float(exp) == float(got)
             except Exception:
                 return False
@@ -90,7 +92,7 @@ def run_case(case):
                     continue
                 classes = None
                 if fd['type'] in ('date', 'datetime') and 'outputFormat' in fd:
-                    classes = ['plain', 'late']
+                    classes = ['plain', 'late', 'early']
                 if fd['type'] == 'string' and not strip and False:
                     classes = None
                 v, c = gen.value(rng, fd['type'], classes, null_p=0.15)
@@ -112,7 +114,7 @@ def run_case(case):
         missing = None
         if rng.random() < 0.2:
             # the schema declares its own missing-value markers (documented use of update_schema); nulls must survive
-            missing = rng.choice([['NA'], ['NA', '-'], ['', 'NA'], ['-']])
+            missing = rng.choice([['NA'], ['NA', '-'], ['', 'NA'], ['-'], []])
             for row in rows:
                 for k_, v_ in row.items():
                     if isinstance(v_, str) and v_ in missing and v_ != '':
